@@ -634,6 +634,52 @@ def replaceStep (S : Schema) (doc : Node) (f t : Nat) (sl : Slice) : FM (Option 
       | some false => fitterFit S doc rf rt sl (fitFuel S sl)
     | _, _ => throw .raises
 
+/-! ### the guard of the termination theorem (Proofs/FitLoop.lean, Props/C11.lean `fitLoop_terminates`) -/
+
+/-- the top-level content ends in a non-leaf node -/
+def endsInElem : List Node → Bool
+  | [] => false
+  | [n] => !n.isLeaf
+  | _ :: n :: ns => endsInElem (n :: ns)
+
+/-- **the guard of `fitLoop_terminates`** — the slice's top-level content ends in a non-leaf node
+    (whatever its open depths), or it consists of leaf and text nodes only and is closed on both
+    sides.  The slices it excludes are those with a non-leaf node in front of a final leaf or text
+    node at the top level: `open_more` then sets `open_end ≥ 1` although the last node cannot be
+    opened, and once everything has been dropped `size = -open_end` keeps the loop going
+    (the example in Props/C11.lean; with the bundled schemas only block leaves such as a
+    horizontal rule can follow a non-leaf node, and the run ends with `size = 0`). -/
+def Slice.termGuard (u : Slice) : Bool :=
+  endsInElem u.content || (u.content.all Node.isLeaf && u.openStart == 0 && u.openEnd == 0)
+
+/-! ### the guard that excludes the finding `C11-fitter-partial-node` -/
+
+/-- walks the slice's *end* spine (`b` = remaining `open_end`, `a` = remaining `open_start`,
+    `onStart` = still on the start spine as well): is there a non-leaf node `N` on it whose children
+    are not a matchable beginning of `N`'s content expression — as they stand, or (when `N` is on the
+    start spine too, `a > 1`, at least two children) with the start-open first child taken apart?
+    `Fitter.place_nodes` computes the frontier entry of the re-opened `N` with
+    `N.content_match_at(N.child_count)`, which raises `ValueError` on such a node.  The same walk as
+    harness/findings.py `partial_node_class` (compared exactly by the tie). -/
+def partialNodeOn (S : Schema) : Nat → List Node → Nat → Bool → Bool
+  | 0, _, _, _ => false
+  | b + 1, frag, a, onStart =>
+    match frag.getLast? with
+    | none => false
+    | some node =>
+      if node.isLeaf then false
+      else
+        let onStart' := onStart && decide (a > 0) && frag.length == 1
+        let kids := node.kids
+        let d := S.dfa (S.tyOf node)
+        let bad (ks : List Node) : Bool := (d.run 0 (S.types ks)).isNone
+        if bad kids || (onStart' && decide (a > 1) && decide (kids.length ≥ 2) && bad kids.tail) then true
+        else partialNodeOn S b kids (a - 1) onStart'
+
+/-- no partial node on the end spine (decidable guard of the totality statements) -/
+def Slice.noPartialNode (S : Schema) (sl : Slice) : Bool :=
+  !partialNodeOn S sl.openEnd sl.content sl.openStart true
+
 /-- `Transform.delete_range(f, t)`: the step it records (via `self.delete(f', t')` =
     `self.replace(f', t', Slice.empty)` = `replace_step`); `.ok none` = no step -/
 def deleteRangeStep (S : Schema) (doc : Node) (f t : Nat) : FM (Option Step) :=
